@@ -65,6 +65,24 @@ def make_listing(rng: random.Random, style: str) -> List[L.SInst]:
             k = rng.choice([0, 1, 1, 2, 2, 2, 3])
             insts.append(L.SInst(0, rng.choice(pool), [rng.choice(ops) for _ in range(k)], None, None, rng.randint(1, 8)))
         insts[0].addr = rng.choice([0x10, 0x401000, 0x1139])
+    elif style == "multisec":
+        # relocatable-object look: several sections, each restarting at address 0, with similar contents
+        pool = rng.sample(L.ALL_MNEMONICS, rng.randint(2, 4))
+        regs = rng.sample(L.ALL_REGS, 3)
+        first = L.gen_listing(rng, rng.choice([3, 5, 8]), mnems=pool, regs=regs, start=0)
+        insts = list(first)
+        for _ in range(rng.randint(1, 2)):
+            sec = []
+            for s_ in first:
+                if rng.random() < 0.6:
+                    sec.append(L.SInst(s_.addr, s_.mnem, list(s_.ops), s_.annotation, None, s_.nbytes))     # identical record
+                else:
+                    m, ops = L.rand_inst_body(rng, pool, regs)
+                    if ops == ["@target"]:
+                        ops = ["10"]
+                    sec.append(L.SInst(s_.addr, m, ops, None, None, s_.nbytes))                          # same address, other text
+            insts += sec
+        return insts
     elif style == "regs":
         fam = [r for f in L.REG_FAMILIES[:8] for r in f]
         insts = L.gen_listing(rng, n, mnems=rng.sample(L.ALL_MNEMONICS, 6), regs=fam)
@@ -90,7 +108,7 @@ def _near(rng, op: str) -> str:
 class Driver:
     def __init__(self, ctx, feat_factory: Callable[[random.Random], RG.Feat], *, flags="all4",
                  styles=("mixed",), quirks=(), per_listing=8, mutate=0.5, extra=None, classify=None,
-                 accept=None, interesting=None, judge_model=True):
+                 accept=None, interesting=None, judge_model=True, allow_empty=False):
         self.ctx = ctx
         self.feat_factory = feat_factory
         self.flags = flags
@@ -103,6 +121,7 @@ class Driver:
         self.accept = accept          # (pattern) -> bool: generator-side filter
         self.interesting = interesting  # (pattern) -> bool: additional condition for a case to count as non-trivial
         self.judge_model = judge_model
+        self.allow_empty = allow_empty
         self.count_model_nontrivial = False
         self.macros = None
         self.ws = real.Workspace()
@@ -136,8 +155,10 @@ class Driver:
         try:
             root = M.parse_rule({"pattern": pattern})
             if M.min_len(root) == 0:
-                ctx.event("skipped_can_match_empty")
-                return False
+                if not self.allow_empty:
+                    ctx.event("skipped_can_match_empty")
+                    return False
+                ctx.event("patterns_that_can_match_empty")
             if not M.defs_on_spine(root):
                 ctx.event("skipped_capture_definition_off_spine")
                 return False
